@@ -133,6 +133,27 @@ class ExprCanon(ast.NodeTransformer):
     def visit_Call(self, node):
         self.generic_visit(node)
         f = node.func
+        # operator.attrgetter('a.b', 'c') -> lambda _o: (_o.a.b, _o.c);  operator.itemgetter(k) -> lambda _o: _o[k]
+        if ast.unparse(f) in ('attrgetter', 'operator.attrgetter', 'itemgetter', 'operator.itemgetter') and node.args and not node.keywords \
+                and all(isinstance(a, ast.Constant) for a in node.args):
+            obj = lambda: ast.Name(id='_o', ctx=ast.Load())
+            parts = []
+            okg = True
+            for a in node.args:
+                if ast.unparse(f).endswith('attrgetter'):
+                    if not (isinstance(a.value, str) and all(x.isidentifier() for x in a.value.split('.'))):
+                        okg = False
+                        break
+                    e = obj()
+                    for x in a.value.split('.'):
+                        e = ast.Attribute(value=e, attr=x, ctx=ast.Load())
+                else:
+                    e = ast.Subscript(value=obj(), slice=a, ctx=ast.Load())
+                parts.append(e)
+            if okg:
+                body = parts[0] if len(parts) == 1 else ast.Tuple(elts=parts, ctx=ast.Load())
+                lam = ast.Lambda(args=ast.arguments(posonlyargs=[], args=[ast.arg(arg='_o')], kwonlyargs=[], kw_defaults=[], defaults=[]), body=body)
+                return at(lam, node)
         # (lambda a: E)(x) -> E[a := x];  (f if c else g)(x) -> f(x) if c else g(x)
         if isinstance(f, (ast.Lambda, ast.IfExp)):
             from .astutil import beta_reduce
